@@ -694,6 +694,23 @@ pub async fn run_client(spec: ClientSpec) {
                             break;
                         }
                     }
+                    if failed && rec.outcome == StepOutcome::Closed("write".into()) {
+                        // the peer has gone; what it said before leaving is still in the socket
+                        let Conn { s: halves, f, raw } = &mut conn;
+                        let mut rbuf = [0u8; 16384];
+                        loop {
+                            match tokio::time::timeout(Duration::from_millis(1), halves.r.read(&mut rbuf)).await {
+                                Ok(Ok(n)) if n > 0 => {
+                                    raw.extend_from_slice(&rbuf[..n]);
+                                    f.push(&rbuf[..n]);
+                                }
+                                _ => break,
+                            }
+                        }
+                        while let Ok(Some(m)) = f.next() {
+                            rec.msgs.push(m);
+                        }
+                    }
                     rec.sent = bytes;
                     if rec.sent_seq == 0 {
                         rec.sent_seq = simcore::log::world(|| format!("client {} step {} sent (partial {})", id, idx, off));
